@@ -31,7 +31,7 @@ SameBut(v1, v2, ids) ==            \* views agree on every id outside `ids`
   /\ DOMAIN v1 \ ids = DOMAIN v2 \ ids
   /\ \A i \in DOMAIN v1 \ ids : v1[i] = v2[i]
 
-IsRead(c)  == c.name \in {"list", "list_ready", "list_epics", "show", "where", "prune_dry", "quickstart"}
+IsRead(c)  == c.name \in {"list", "list_all", "list_epic", "list_ready", "list_epics", "show", "where", "prune_dry", "quickstart"}
 Failed(o)  == o.exit # 0
 Targets(c) == IF c.name \in {"set", "claim_id", "show"} THEN {c.id}
               ELSE IF c.name = "sequence" THEN {c.ids[k] : k \in 1..Len(c.ids)}
@@ -270,6 +270,21 @@ C16_truth(o) ==
            /\ r.id \in VEpics(o.post) /\ r.id \notin DOMAIN o.pre
            /\ \A k \in 1..Len(r.ids) : r.ids[k] \in VTasks(o.post) /\ o.post[r.ids[k]].epic = r.id
            /\ r.edges = {d \in VEdges(o.post) : d[1] \in {r.ids[k] : k \in 1..Len(r.ids)}}
+      [] OTHER -> TRUE
+
+\* what the read commands print is the state: list (active tasks), list --all,
+\* list --epics, list --epic E, show <id>
+C16_reads(o) ==
+  LET c == o.cmd ids == {o.reply.ids[k] : k \in 1..Len(o.reply.ids)} v == o.pre IN
+  o.out.json =>
+    CASE c.name = "list" -> o.exit = 0 /\ ids = {t \in VTasks(v) : ~Closed(v[t].state)} /\ Len(o.reply.ids) = Cardinality(ids)
+      [] c.name = "list_all" -> o.exit = 0 /\ ids = VTasks(v) /\ Len(o.reply.ids) = Cardinality(ids)
+      [] c.name = "list_epics" -> o.exit = 0 /\ ids = VEpics(v) /\ Len(o.reply.ids) = Cardinality(ids)
+      [] c.name = "list_epic" -> o.exit = 0 => ids = {t \in VTasks(v) : v[t].epic = c.epic /\ ~Closed(v[t].state)}
+      [] c.name = "show" -> IF c.id \in DOMAIN v
+                              THEN o.exit = 0 /\ o.reply.id = c.id /\ o.reply.state = v[c.id].state
+                                   /\ o.reply.claim = v[c.id].claim /\ o.reply.epic = v[c.id].epic
+                              ELSE Failed(o)
       [] OTHER -> TRUE
 
 (***************************************************************************)
